@@ -119,3 +119,13 @@ def explore(ck):
         if 'corrupt' in c.meta: ck.nontrivial((tuple(c.meta['counts']), c.start, c.meta['corrupt'])); ck.count('corrupt:' + c.meta['corrupt'][1]); ck.count('verdict:' + st[0])
         elif max(c.meta['counts']) >= 2: ck.nontrivial((tuple(c.meta['counts']), c.start)); ck.count('consistent chains')
         ck.sample(dict(case=c.id, coin=c.coin, tx_counts=c.meta['counts'], start=c.start, corrupt=c.meta.get('corrupt'), model_status=st, impl_exit=rr.rc, impl_error=(rr.error_height, rr.error_kind)), limit=8)
+    # ---- in-process: utils::merkle_root through its hook vs the Coq mirror, list lengths 1..600 incl. every odd/even pattern of levels ----
+    lens = sorted(set(list(range(1, 70)) + [95, 96, 97, 127, 128, 129, 130, 131, 191, 255, 256, 257, 258, 259, 383, 511, 512, 513, 514, 600]))
+    if quick: lens = [n for n in lens if n <= 70 or n in (127, 128, 129, 131, 255, 257, 258, 514)]
+    reqs = [' '.join(gen.rb(r, 32).hex() for _ in range(n)) for n in lens]
+    impl = run.hook_lines(ck.tools, 'merkle-root', reqs); mod = run.model_lines(ck.tools, ['merkle ' + q for q in reqs])
+    for n, q, a, b in zip(lens, reqs, impl, mod):
+        ck.evaluated(); ck.count('merkle hook lists'); ck.nontrivial(('merkle', n))
+        want = merkle([bytes.fromhex(x) for x in q.split()]).hex()
+        if a != b or b != want: ck.disagreement('merkle root of %d hashes' % n, 'impl=%s model=%s reference=%s' % (a, b, want), None, in_domain=True, extra_replay='merkle ' + q)
+
